@@ -29,20 +29,30 @@ META = {
     "per-axis on small sizes, generated GeoBox pairs through compute_reproject_roi in both calling conventions, "
     "decompose_rws, native_pix_transform, GbxPointTransform and cross-CRS plans with an exact stand-in for the pyproj "
     "transformer: affine, axis swapping, quadratic, partially non-finite, clamps active) and independent "
-    "numpy/pyproj/exact-rational oracles that map every destination pixel centre and judge separated rasters.",
+    "numpy/pyproj/exact-rational oracles that map every destination pixel centre and judge separated rasters.  The envelope "
+    "hypothesis of the cross-CRS branch is DISCHARGED for separable monotone pixel transforms (Props/C03Sep: axis-aligned "
+    "grids under lon/lat <-> Mercator / cylindrical-equal-area / plate-carree style transformers, lon/lat clamp included, "
+    "padding >= 1); the NaN branch of the scale estimate (a stencil point without image) is modelled with the behaviour of "
+    "HEAD and of the repair on branch fix2-C03 (flag scaleFallback).",
     "note": "Trusted: Lean kernel + {propext, Classical.choice, Quot.sound}; IEEE rounding not modelled (exact stream "
     "restricted to dyadic inputs, doubles sampled by the oracle); cross-CRS coverage holds only under the envelope "
     "hypothesis (pyproj curvature) and is sampled; paste path coverage is proved for true transforms within half a "
     "pixel of the snapped one (scale residue * extent + shift residue < 1/2).  Observation (not a finding): the lon/lat "
     "clamp of a geographic SOURCE that really extends beyond +-180 (not just by rounding) collapses those columns onto "
     "lon=180 in tr but not in tr.back, so roi_dst then ends at the antimeridian; the coverage oracle does not judge "
-    "such sources.  Private helpers (_pick_read_scale ...) are looked up defensively: a renamed / re-parameterised one "
+    "such sources (real pyproj wraps such columns: they have no counterpart in the destination, checked by the family "
+    "global-src-overhang).  Known findings met on real pyproj in this round: xcrs-boundary-off-domain-interior-dropped "
+    "(full-disk geostationary / orthographic views vs lon/lat grids reaching beyond the horizon: boundary samples without "
+    "image are dropped and with them the interior) and xcrs-scale-centre-off-domain-raises (AssertionError when the centre of "
+    "roi_dst has no image; repaired on fix2-C03).  Where a clamp makes the local map at the centre of roi_dst exactly "
+    "singular the real code lives on lstsq rounding noise: not reachable with real pyproj on axis-aligned grids, kept out of "
+    "the exact stream and counted.  Private helpers (_pick_read_scale ...) are looked up defensively: a renamed / re-parameterised one "
     "is skipped (counted in the evidence), never failed; the transformer seam (public CRS.transformer_to_crs) is "
     "probed before it is used.",
     "technique": "Lean 4 proof over hand model + exhaustive/random differential correspondence with real code",
     "unmodelled": "overlap.py: the pyproj transformer itself (a parameter of the model; sampled by the pyproj oracle), CRS "
     "equality and crs.geographic (inputs of the model: C01/C19), GCPGeoBox.pix2wld/wld2pix (polynomial; only the dispatch "
-    "on the class is modelled), get_scale_at_point when a stencil point maps to a non-finite location, "
+    "on the class is modelled), "
     "compute_output_geobox (C11); math.py: numpy lstsq itself (its closed form on the 5-point stencil is modelled and "
     "proved to satisfy the normal equations), norm_xy, quasi_random_r2; roi.py: polygon_path with closed=True, the "
     "N-d / int / open-slice variants of the ROI helpers (C17); geobox.py: zoom_out beyond shape and affine (C02); "
@@ -192,25 +202,37 @@ def check_cover(R: Run, key: str, case, src_shape, dst_shape, px, py, r, eps, si
         # envelopes independently (pyproj, float64).  A miss is routed to the known key only if EVERY missed pixel lies
         # outside the independent 5-point envelope; anything the 5-point design would have covered keeps the general key.
         try:
-            (slo, shi, spad), dfun = env
-            tol_ = 2e-3
+            (slo, shi, spad, sbad), dfun = env
+            tol_ = 2e-3 if not sbad else 1e-9  # a degenerate envelope of the few samples that survive is judged exactly
+            # Boundary samples that the transformer can not convert (outside the other CRS's domain: beyond the horizon of a
+            # geostationary / orthographic view ...) are dropped by the planner; when that happens the interior of the
+            # raster can overlap although the surviving samples do not show it: own known key, same design limit.
+            OFF = "xcrs-boundary-off-domain-interior-dropped"
             if miss_src.any():
                 mx_, my_ = px[miss_src], py[miss_src]
                 out = ((mx_ < slo[0] - spad - tol_) | (mx_ > shi[0] + spad + tol_) | (my_ < slo[1] - spad - tol_)
                        | (my_ > shi[1] + spad + tol_))
                 if out.all():
-                    ksrc = "xcrs-curved-edge-sliver-dropped"
-                    what_s = " (every missed location lies outside the 5-samples-per-side envelope of the design)"
+                    ksrc = OFF if sbad else "xcrs-curved-edge-sliver-dropped"
+                    what_s = " (every missed location lies outside the 5-samples-per-side envelope of the design" + (
+                        f"; {sbad} of the 20 boundary samples of the destination have no image in the source CRS)" if sbad else ")")
                 else:
                     what_s = f" ({int((~out).sum())} of them INSIDE the 5-samples-per-side envelope)"
             if miss_dst.any():
-                dlo, dhi = dfun()
+                dlo, dhi, dbad = dfun()
                 ii, jj = np.nonzero(miss_dst)
                 cx_, cy_ = cols[jj] + 0.5, rows[ii] + 0.5
                 out = (cx_ < dlo[0] - tol_) | (cx_ > dhi[0] + tol_) | (cy_ < dlo[1] - tol_) | (cy_ > dhi[1] + tol_)
-                if out.all() and not miss_src.any() or (out.all() and ksrc.endswith("sliver-dropped")):
-                    kdst = "xcrs-curved-edge-sliver-dropped"
-                    what += " (every dropped pixel lies outside the 5-samples-per-side envelope of the design)"
+                if sbad and not out.all() and (ksrc == OFF or not miss_src.any()):
+                    # the source region was built from the few boundary samples that have an image: the destination region
+                    # inherits that loss whatever the envelope of ITS samples says
+                    kdst = OFF
+                    what += f" ({sbad} of the 20 boundary samples of the destination have no image in the source CRS)"
+                elif out.all() and not miss_src.any() or (out.all() and (ksrc.endswith("sliver-dropped") or ksrc == OFF)):
+                    kdst = OFF if (sbad or dbad or ksrc == OFF) else "xcrs-curved-edge-sliver-dropped"
+                    what += " (every dropped pixel lies outside the 5-samples-per-side envelope of the design" + (
+                        f"; {sbad} boundary samples of the destination / {dbad} of the source region have no image in the other CRS)"
+                        if (sbad or dbad) else ")")
                 else:
                     what += f" ({int((~out).sum())} of them INSIDE the 5-samples-per-side envelope)"
         except Exception as ex:  # pylint: disable=broad-except
@@ -739,7 +761,29 @@ def run(R: Run):
         def __call__(self, pts):
             return [xy_(self.A_ * (float(p_.x), float(p_.y))) for p_ in pts]
 
-    for _ in range(R.pick(500, 5000)):
+    # Is replacing the module attribute `native_pix_transform` what compute_reproject_roi sees on this tree?  (the seam of
+    # the two substituted-transform streams below; if a refactoring routes around it they are skipped, not failed)
+    seam_calls = []
+    npt_orig = getattr(O, "native_pix_transform", None)
+    if callable(npt_orig):
+        def npt_probe(a_, b_):
+            seam_calls.append(1)
+            return npt_orig(a_, b_)
+
+        O.native_pix_transform = npt_probe
+        try:
+            O.compute_reproject_roi(gb((4, 4), Affine.identity()), gb((4, 4), Affine.translation(1, 1)))
+        except Exception:  # pylint: disable=broad-except
+            pass
+        finally:
+            O.native_pix_transform = npt_orig
+    npt_seam = bool(seam_calls)
+    if not npt_seam:
+        R.count("plan|native-pix-transform-seam-not-reached")
+        R.notes.append("compute_reproject_roi does not look up overlap.native_pix_transform on this tree: the substituted-transform "
+                       "streams (nlplan, non power-of-two paste plans) were skipped")
+
+    for _ in range(R.pick(500, 5000) if npt_seam else 0):
         sshape, dshape = (rng.randint(1, 40), rng.randint(1, 40)), (rng.randint(1, 40), rng.randint(1, 40))
         if rng.random() < 0.2:
             dshape = (rng.choice([1, 2, 3]), rng.randint(100, 3000))[:: rng.choice([1, -1])]
@@ -762,7 +806,7 @@ def run(R: Run):
                 O.native_pix_transform = orig_npt0
             return f"{roi_s(r_.roi_src)} {roi_s(r_.roi_dst)} {bool_s(r_.paste_ok)} {int(r_.read_shrink)}"
 
-        orig_npt0 = O.native_pix_transform
+        orig_npt0 = npt_orig
         R.corr(f"c03 nlplan {sshape[0]} {sshape[1]} {dshape[0]} {dshape[1]} {aff_s(M)} {opt_s(pad)} {opt_s(al)}", fnl,
                sig="nlplan|" + kind)
 
@@ -854,8 +898,8 @@ def run(R: Run):
                lambda: plan_s(O.compute_reproject_roi(src, dst)), sig="plan|huge")
 
     # --- non power-of-two scales: exact dst→src transform substituted for native_pix_transform (paste path only)
-    n_patched = R.pick(1200, 12000)
-    orig_npt = O.native_pix_transform
+    n_patched = R.pick(1200, 12000) if npt_seam else 0
+    orig_npt = npt_orig
     for _ in range(n_patched):
         sshape, dshape = shapes()
         far = rng.random() < 0.25
@@ -1173,6 +1217,10 @@ RECTILINEAR = {"EPSG:4326", "EPSG:3857", "EPSG:6933"}
 
 
 def crs_tag(c: str) -> str:
+    if "+proj=geos" in c:
+        return "geos"
+    if "+proj=ortho" in c:
+        return "ortho"
     return c[5:] if c.startswith("EPSG:") else {SINU_0: "sinu0", SINU_15: "sinu15", LAEA_A: "laeaA", LAEA_B: "laeaB"}.get(c, "custom")
 
 
@@ -1251,6 +1299,23 @@ def cross_crs(R: Run, O, gb):
         src, dst = gb(sshape, SA, ca), gb(dshape, DA, cb)
         case = {"fn": "compute_reproject_roi", "src_crs": a, "dst_crs": b, "src_shape": sshape, "dst_shape": dshape,
                 "src_affine": list(SA)[:6], "dst_affine": list(DA)[:6], "padding": pad, "align": al, "history": hist}
+        def env5(rect, A_from, c_from, c_to, A_to):
+            """independent envelope (target pixel coords) of 5 samples per side of `rect` = (y0, y1, x0, x1)"""
+            y0, y1, x0, x1 = rect
+            ex, ey = np.linspace(x0, x1, 5), np.linspace(y0, y1, 5)
+            bx = np.concatenate([ex, ex, np.full(5, x0), np.full(5, x1)])
+            by = np.concatenate([np.full(5, y0), np.full(5, y1), ey, ey])
+            wx_, wy_ = apply_np(faff(A_from), bx, by)
+            if c_from == "EPSG:4326":
+                wx_, wy_ = np.clip(wx_, -180, 180), np.clip(wy_, -90, 90)
+            qx_, qy_ = tf(c_from, c_to).transform(wx_, wy_)
+            qx_, qy_ = apply_np(finv(faff(A_to)), np.asarray(qx_, dtype="float64"), np.asarray(qy_, dtype="float64"))
+            ok_ = np.isfinite(qx_) & np.isfinite(qy_)
+            nbad_ = int((~ok_).sum())
+            if not ok_.any():
+                return (np.inf, np.inf), (-np.inf, -np.inf), nbad_
+            return (qx_[ok_].min(), qy_[ok_].min()), (qx_[ok_].max(), qy_[ok_].max()), nbad_
+
         seen = []
         orig_rfp = O.roi_from_points
 
@@ -1262,7 +1327,20 @@ def cross_crs(R: Run, O, gb):
         try:
             r = O.compute_reproject_roi(src, dst, padding=pad, align=al)
         except Exception as e:  # pylint: disable=broad-except
-            R.oracle(False, "xcrs-raises", case, f"compute_reproject_roi raised {type(e).__name__}: {e}", sig="xcrs|raises")
+            key_ = "xcrs-raises"
+            if isinstance(e, AssertionError):
+                # `assert scale > 0` with a NaN scale: the centre of roi_dst, where the scale is estimated, has no image in
+                # the source CRS.  Own key when part of the destination boundary is off the source CRS's domain as well.
+                # Own key when part of the destination (boundary or interior) is off the source CRS's domain.
+                try:
+                    gy_, gx_ = np.meshgrid(np.linspace(0, dshape[0], 9), np.linspace(0, dshape[1], 9), indexing="ij")
+                    wx_, wy_ = apply_np(faff(DA), gx_.ravel(), gy_.ravel())
+                    qx_, qy_ = tf(b, a).transform(wx_, wy_)
+                    if not (np.isfinite(qx_).all() and np.isfinite(qy_).all()):
+                        key_ = "xcrs-scale-centre-off-domain-raises"
+                except Exception:  # pylint: disable=broad-except
+                    pass
+            R.oracle(False, key_, case, f"compute_reproject_roi raised {type(e).__name__}: {e}", sig="xcrs|raises")
             return
         finally:
             O.roi_from_points = orig_rfp
@@ -1279,25 +1357,9 @@ def cross_crs(R: Run, O, gb):
         sy[~np.isfinite(sy)] = np.nan
         px, py = apply_np(finv(faff(SA)), sx, sy)
         sig = f"xcrs|{crs_tag(a)}>{crs_tag(b)}|{tag}" + ("|hist" if hist else "")
-        def env5(rect, A_from, c_from, c_to, A_to):
-            """independent envelope (target pixel coords) of 5 samples per side of `rect` = (y0, y1, x0, x1)"""
-            y0, y1, x0, x1 = rect
-            ex, ey = np.linspace(x0, x1, 5), np.linspace(y0, y1, 5)
-            bx = np.concatenate([ex, ex, np.full(5, x0), np.full(5, x1)])
-            by = np.concatenate([np.full(5, y0), np.full(5, y1), ey, ey])
-            wx_, wy_ = apply_np(faff(A_from), bx, by)
-            if c_from == "EPSG:4326":
-                wx_, wy_ = np.clip(wx_, -180, 180), np.clip(wy_, -90, 90)
-            qx_, qy_ = tf(c_from, c_to).transform(wx_, wy_)
-            qx_, qy_ = apply_np(finv(faff(A_to)), np.asarray(qx_, dtype="float64"), np.asarray(qy_, dtype="float64"))
-            ok_ = np.isfinite(qx_) & np.isfinite(qy_)
-            if not ok_.any():
-                return (np.inf, np.inf), (-np.inf, -np.inf)
-            return (qx_[ok_].min(), qy_[ok_].min()), (qx_[ok_].max(), qy_[ok_].max())
-
-        slo, shi = env5((0, dshape[0], 0, dshape[1]), DA, b, a, SA)
+        slo, shi, sbad = env5((0, dshape[0], 0, dshape[1]), DA, b, a, SA)
         (ys_, xs_) = r.roi_src
-        env = ((slo, shi, 1 if pad is None else pad),
+        env = ((slo, shi, 1 if pad is None else pad, sbad),
                lambda: env5((ys_.start, ys_.stop, xs_.start, xs_.stop), SA, a, b, DA))
         anyin = check_cover(R, "xcrs", case, sshape, dshape, px, py, r, 1e-6, sig, rows=rows, cols=cols, env=env)
         R.oracle(r.paste_ok is False and r.transform.linear is None, "xcrs-treated-as-same-crs", case,
@@ -1385,11 +1447,63 @@ def cross_crs(R: Run, O, gb):
             continue
         pad = rng.choice([None, None, 1, 0])
         if rng.random() < 0.6:
-            one_case("EPSG:4326", pcrs, gbox, pbox, pad, None, "global-src", step=max(1, pbox[0][0] // 120))
+            tag_ = "global-src"
+            if rng.random() < 0.4:
+                # a geographic SOURCE that overhangs the +-180 / +-90 limits: by rounding dust (what the planner's lon/lat clamp is
+                # for) or by whole pixels (those columns have no counterpart in the destination CRS: pyproj wraps them)
+                (gny, gnx), GA = gbox
+                ov = rng.choice([1e-9, 1e-7, 1e-5, 0.3 * GA.a, 2 * GA.a, 5 * GA.a])
+                k_ = int(math.ceil(2 * ov / GA.a))
+                gbox = ((gny + k_, gnx + k_), Affine(GA.a, 0, GA.c - ov, 0, GA.e, GA.f + ov))
+                tag_ = "global-src-overhang" + ("-dust" if ov < 1e-3 else "-pixels")
+            one_case("EPSG:4326", pcrs, gbox, pbox, pad, None, tag_, step=max(1, pbox[0][0] // 120))
         else:
             st = max(1, max(gbox[0]) // 160)
             one_case(pcrs, "EPSG:4326", pbox, gbox, pad, None, "global-dst",
                      rows=sub_index(gbox[0][0], st), cols=sub_index(gbox[0][1], st))
+
+    # ---------------- partial transforms: part of one raster (its corners / edges) has no image in the other CRS - full-disk
+    #                  geostationary and orthographic views against lon/lat grids that reach beyond the horizon, both ways
+    GEOS = "+proj=geos +h=35785831 +lon_0={lon0} +sweep=y +ellps=GRS80 +units=m +no_defs"
+    ORTHO = "+proj=ortho +lat_0={lat0} +lon_0={lon0} +datum=WGS84 +units=m +no_defs"
+
+    def disk_view():
+        lon0 = rng.choice([0, 0, -75.2, 140.7, 41.5])
+        if rng.random() < 0.6:
+            crs, rad = GEOS.format(lon0=lon0), 5.43e6
+        else:
+            crs, rad = ORTHO.format(lat0=rng.choice([0, 0, 30]), lon0=lon0), 6.37e6
+        half = rad * rng.choice([1.01, 1.01, 0.62, 0.3])  # full disk (corners off the disk), inscribed square, inner window
+        n = rng.choice([220, 350, 500])
+        return crs, lon0, ((n, n), Affine(2 * half / n, 0, -half, 0, -2 * half / n, half)), ("full" if half > rad else "inside")
+
+    def lonlat_window(lon0):
+        kind = rng.choice(["global", "global", "hemisphere", "regional", "strip"])
+        res = rng.choice([0.5, 1.0, 0.25])
+        if kind == "global":
+            x0, x1, y0, y1 = -180, 180, -90, 90
+        elif kind == "hemisphere":
+            c = ((lon0 + 180) % 360) - 180
+            x0, x1, y0, y1 = max(-180, c - 100), min(180, c + 100), -90, 90
+        elif kind == "regional":
+            c = ((lon0 + 180) % 360) - 180
+            x0, x1, y0, y1 = max(-180, c - 40), min(180, c + 40), -35, 45
+        else:
+            x0, x1, y0, y1 = -180, 180, 10, 10 + 3 * res
+        return kind, ((max(1, int((y1 - y0) / res)), max(1, int((x1 - x0) / res))), Affine(res, 0, x0, 0, -res, y1))
+
+    fd = ((1100, 1100), Affine(1e4, 0, -5.5e6, 0, -1e4, 5.5e6))
+    g05 = ((360, 720), Affine(0.5, 0, -180, 0, -0.5, 90))
+    one_case(GEOS.format(lon0=0), "EPSG:4326", fd, g05, None, None, "corpus-fulldisk", step=3)
+    one_case("EPSG:4326", GEOS.format(lon0=0), g05, fd, None, None, "corpus-fulldisk", step=6)
+    for _ in range(R.pick(24, 240)):
+        crs, lon0, vbox, vk = disk_view()
+        wk, wbox = lonlat_window(lon0)
+        pad = rng.choice([None, None, 1, 0])
+        if rng.random() < 0.55:
+            one_case(crs, "EPSG:4326", vbox, wbox, pad, None, f"disk-src-{vk}|{wk}", step=max(1, max(wbox[0]) // 140))
+        else:
+            one_case("EPSG:4326", crs, wbox, vbox, pad, None, f"disk-dst-{vk}|{wk}", step=max(1, vbox[0][0] // 140))
 
     # ---------------- very large destination grids: the overlap sits 1e5 .. 1e7 pixels from the destination origin
     for _ in range(R.pick(50, 500)):
